@@ -1015,33 +1015,24 @@ fn process_text<'input>(
     }
 
     let mut text_buffer = TextBuffer::new();
-    let mut is_as_is = false; // TODO: explain
     let mut stream = Stream::from_substr(ctx.doc.text, range.clone());
     while !stream.at_end() {
         match parse_next_chunk(&mut stream, &ctx.entities)? {
             NextChunk::Byte(c) => {
-                if is_as_is {
-                    text_buffer.push_raw(c);
-                    is_as_is = false;
-                } else {
-                    text_buffer.push_from_text(c, stream.at_end());
-                }
+                text_buffer.push_from_text(c);
             }
             NextChunk::Char(c) => {
                 for b in CharToBytes::new(c) {
                     if ctx.loop_detector.depth > 0 {
-                        text_buffer.push_from_text(b, stream.at_end());
+                        text_buffer.push_from_text(b);
                     } else {
                         // Characters not from entity should be added as is.
                         // Not sure why... At least `lxml` produces the same result.
                         text_buffer.push_raw(b);
-                        is_as_is = true;
                     }
                 }
             }
             NextChunk::Text(fragment) => {
-                is_as_is = false;
-
                 if !text_buffer.is_empty() {
                     ctx.append_text(Cow::Owned(text_buffer.finish()), range.clone())?;
                 }
@@ -1316,6 +1307,8 @@ impl Iterator for CharToBytes {
 
 struct TextBuffer {
     buffer: Vec<u8>,
+    /// A literal `\r` was seen and we do not know yet if it is followed by `\n`.
+    pending_cr: bool,
 }
 
 impl TextBuffer {
@@ -1323,11 +1316,13 @@ impl TextBuffer {
     fn new() -> Self {
         TextBuffer {
             buffer: Vec::with_capacity(32),
+            pending_cr: false,
         }
     }
 
     #[inline]
     fn push_raw(&mut self, c: u8) {
+        self.flush_pending_cr();
         self.buffer.push(c);
     }
 
@@ -1349,35 +1344,48 @@ impl TextBuffer {
     // Translate \r\n and any \r that is not followed by \n into a single \n character.
     //
     // https://www.w3.org/TR/xml/#sec-line-ends
-    fn push_from_text(&mut self, c: u8, at_end: bool) {
-        if self.buffer.last() == Some(&b'\r') {
-            let idx = self.buffer.len() - 1;
-            self.buffer[idx] = b'\n';
-
-            if at_end && c == b'\r' {
-                self.buffer.push(b'\n');
-            } else if c != b'\n' {
-                self.buffer.push(c);
-            }
-        } else if at_end && c == b'\r' {
+    fn push_from_text(&mut self, c: u8) {
+        if self.pending_cr {
+            self.pending_cr = false;
             self.buffer.push(b'\n');
+
+            // \n in \r\n was already added.
+            if c == b'\n' {
+                return;
+            }
+        }
+
+        if c == b'\r' {
+            self.pending_cr = true;
         } else {
             self.buffer.push(c);
+        }
+    }
+
+    // A pending \r is not followed by \n, therefore it must be replaced with \n.
+    #[inline]
+    fn flush_pending_cr(&mut self) {
+        if self.pending_cr {
+            self.pending_cr = false;
+            self.buffer.push(b'\n');
         }
     }
 
     #[inline]
     fn clear(&mut self) {
         self.buffer.clear();
+        self.pending_cr = false;
     }
 
     #[inline]
     fn is_empty(&self) -> bool {
-        self.buffer.is_empty()
+        self.buffer.is_empty() && !self.pending_cr
     }
 
     #[inline]
     fn finish(&mut self) -> String {
+        self.flush_pending_cr();
+
         // `unwrap` is safe, because buffer must contain a valid UTF-8 string.
         String::from_utf8(take(&mut self.buffer)).unwrap()
     }
